@@ -107,3 +107,510 @@ class AddMissingDeps:
         for nm, goal, serves in closure_clauses(N, A, xs.a, cand):
             C.check(goal, f"_add_missing_deps.post.C19.{nm}", serves, "post")
         return "return"
+
+
+# ====================================================================================================================
+# compose itself
+# ====================================================================================================================
+n_nargs = z3.Function("orig_nargs", Id, I)
+n_aid = z3.Function("orig_arg_id", Id, I, Id)
+n_akey = z3.Function("orig_arg_key", Id, I, KPath)
+n_kwh = z3.Function("orig_kw_has", Id, Key, B)
+n_kwid = z3.Function("orig_kw_id", Id, Key, Id)
+n_kwkey = z3.Function("orig_kw_key", Id, Key, KPath)
+in_at = z3.Function("input_node", I, Id)  # the node the j-th input alias resolves to
+out_at = z3.Function("output_node", I, Id)
+in_pos = z3.Function("input_position", Id, I)
+new_of = z3.Function("make_axn_id_of_input", Id, Id)  # id of the argument holder that replaces an input node
+new_inv = z3.Function("input_of_holder", Id, Id)
+dag_in = z3.Function("original_dag_input", I, Id)
+
+
+class Sp:
+    """specification of the rewiring: M(level, id) = the id a reference to `id` must have once `level` inputs are rewired"""
+
+    def __init__(self, n_in, D0):
+        self.n_in, self.D0 = n_in, D0
+
+    def is_in(self, t_, upto):
+        j = in_pos(t_)
+        return z3.And(j >= 0, j < upto, in_at(j) == t_)
+
+    def M(self, level, t_):
+        return z3.If(self.is_in(t_, level), new_of(t_), t_)
+
+    def is_new(self, t_, upto):
+        o = new_inv(t_)
+        return z3.And(new_of(o) == t_, self.is_in(o, upto))
+
+
+class SCopyTable(Sym):
+    """xn_dict: StrictDict[Id, deep copy of a node | ArgExecNode]; the copies' reference lists are mutable"""
+
+    FIELDS = ("dom", "kind", "nargs", "aid", "akey", "kwh", "kwid", "kwkey", "acth", "actid", "actkey")
+    SORTS = dict(dom=sym.SetSort(Id), kind=z3.ArraySort(Id, I), nargs=z3.ArraySort(Id, I), aid=z3.ArraySort(Id, z3.ArraySort(I, Id)), akey=z3.ArraySort(Id, z3.ArraySort(I, KPath)),
+                 kwh=z3.ArraySort(Id, z3.ArraySort(Key, B)), kwid=z3.ArraySort(Id, z3.ArraySort(Key, Id)), kwkey=z3.ArraySort(Id, z3.ArraySort(Key, KPath)),
+                 acth=z3.ArraySort(Id, B), actid=z3.ArraySort(Id, Id), actkey=z3.ArraySort(Id, KPath))
+
+    def __init__(self):
+        self._serial = C.next_serial()
+        self.havoc()
+
+    def havoc(self):
+        for f_ in self.FIELDS:
+            setattr(self, f_, C.fresh("T_" + f_, self.SORTS[f_]))
+
+    def _touch(self):
+        C.mutated[id(self)] = self
+
+    def _vc_contains(self, k):
+        return SBool(self.dom[term(k)])
+
+    def __setitem__(self, k, v):
+        kt = term(k)
+        if not isinstance(v, SArgHolder):
+            raise Unsupported("only argument holders are added to the table of copies")
+        if C.fork(self.dom[kt], "xn_dict: id already used"):
+            raise KeyError("key already exists")
+        self._touch()
+        self.dom = z3.Store(self.dom, kt, True)
+        self.kind = z3.Store(self.kind, kt, 3)
+        self.nargs = z3.Store(self.nargs, kt, 0)
+        self.kwh = z3.Store(self.kwh, kt, z3.K(Key, False))
+        self.acth = z3.Store(self.acth, kt, False)
+
+    def values(self):
+        dom = self.dom
+        return SIter(Id, lambda q: dom[q], lambda q: SCopyNode(self, q))
+
+
+class SArgHolder(Sym):
+    def __init__(self, i):
+        self._i = i
+
+
+class SOrigNode(Sym):
+    """a node of the ORIGINAL DAG: read-only"""
+
+    def __init__(self, xt):
+        self._x = xt
+
+    def _vc_subst(self, a, b):
+        return SOrigNode(z3.substitute(self._x, (a, b)))
+
+
+class SCopyOf(Sym):
+    """deepcopy(original node x)"""
+
+    def __init__(self, xt):
+        self._x = xt
+
+    def _vc_subst(self, a, b):
+        return SCopyOf(z3.substitute(self._x, (a, b)))
+
+
+class SCopyNode(Sym):
+    """a node of xn_dict (a copy): its reference lists live in the table"""
+
+    def __init__(self, T, xt):
+        object.__setattr__(self, "T", T)
+        object.__setattr__(self, "_x", xt)
+
+    @property
+    def args(self):
+        return SArgsView(self.T, self._x)
+
+    @property
+    def kwargs(self):
+        return SKwView(self.T, self._x)
+
+    @property
+    def active(self):
+        T, xt = self.T, self._x
+        return sym.SOpt(T.acth[xt], SUxn(T.actid[xt], T.actkey[xt]), "xn.active")
+
+    def _vc_setattr(self, name, value):
+        if name != "active":
+            raise Unsupported(f"object.__setattr__(xn, {name!r}, ...)")
+        T, xt = self.T, self._x
+        ai, ak = uxn_terms(value)
+        T._touch()
+        T.actid = z3.Store(T.actid, xt, ai)
+        T.actkey = z3.Store(T.actkey, xt, ak)
+
+    def _vc_subst(self, a, b):
+        return SCopyNode(self.T, z3.substitute(self._x, (a, b)))
+
+
+class SArgsView(Sym):
+    def __init__(self, T, xt):
+        self.T, self.xt = T, xt
+
+    def _vc_enumerate(self):
+        T, xt = self.T, self.xt
+        n = T.nargs[xt]
+        it = SIter(I, lambda i: z3.And(i >= 0, i < n), lambda i: (SInt(i), SUxn(T.aid[xt][i], T.akey[xt][i])), count=n)
+        it._indexed = (n, list)
+        return it
+
+    def __setitem__(self, i, v):
+        T, xt = self.T, self.xt
+        it = sym.ti(i)
+        C.check(z3.And(it >= 0, it < T.nargs[xt]), "compose.no_internal_error.args_index_in_range", {"C14", "C19"}, "internal")
+        ai, ak = uxn_terms(v)
+        T._touch()
+        T.aid = z3.Store(T.aid, xt, z3.Store(T.aid[xt], it, ai))
+        T.akey = z3.Store(T.akey, xt, z3.Store(T.akey[xt], it, ak))
+
+
+class SKwView(Sym):
+    def __init__(self, T, xt):
+        self.T, self.xt = T, xt
+
+    def items(self):
+        T, xt = self.T, self.xt
+        return SIter(Key, lambda k: T.kwh[xt][k], lambda k: (SKeyStr(k), SUxn(T.kwid[xt][k], T.kwkey[xt][k])))
+
+    def __setitem__(self, k, v):
+        T, xt = self.T, self.xt
+        kt = term(k)
+        C.check(T.kwh[xt][kt], "compose.no_internal_error.only_existing_keywords_are_rewritten", {"C14", "C19"}, "internal")
+        ai, ak = uxn_terms(v)
+        T._touch()
+        T.kwid = z3.Store(T.kwid, xt, z3.Store(T.kwid[xt], kt, ai))
+        T.kwkey = z3.Store(T.kwkey, xt, z3.Store(T.kwkey[xt], kt, ak))
+
+
+class SObjectShim:
+    """`object` in compose's namespace: object.__setattr__(xn, name, value) on a frozen dataclass copy"""
+
+    @staticmethod
+    def __setattr__(o, name, value):  # noqa: PLW3201
+        if hasattr(o, "_vc_setattr"):
+            return o._vc_setattr(name, value)
+        raise ContractBindError("object.__setattr__ on something that is not a copied node (a write outside the frame)")
+
+
+def table_clauses(T, sp, mdom, Largs, Lkw, Lact):
+    """the state of the table of copies: levels say how many inputs have been rewired in each reference"""
+    t_, i_, k_ = bv("t!tc", Id), bv("i!tc", I), bv("k!tc", Key)
+    D0 = sp.D0
+    return [
+        ("keys_are_the_copied_nodes_and_the_holders_of_the_rewired_inputs", z3.ForAll([t_], T.dom[t_] == z3.Or(D0[t_], sp.is_new(t_, mdom))), {"C19"}),
+        ("copies_keep_their_shape", z3.ForAll([t_], z3.Implies(D0[t_], z3.And(T.kind[t_] == 1, T.nargs[t_] == n_nargs(t_), T.acth[t_] == has_act(t_)))), {"C19"}),
+        ("holders_have_no_references", z3.ForAll([t_], z3.Implies(z3.And(sp.is_new(t_, mdom), z3.Not(D0[t_])), z3.And(T.kind[t_] == 3, T.nargs[t_] == 0, z3.Not(T.acth[t_]), z3.ForAll([k_], z3.Not(T.kwh[t_][k_]))))), {"C19"}),
+        ("positional_references", z3.ForAll([t_, i_], z3.Implies(z3.And(D0[t_], i_ >= 0, i_ < n_nargs(t_)), z3.And(T.aid[t_][i_] == sp.M(Largs(t_, i_), n_aid(t_, i_)), T.akey[t_][i_] == n_akey(t_, i_)))), {"C19"}),
+        ("keyword_references", z3.ForAll([t_, k_], z3.Implies(D0[t_], z3.And(T.kwh[t_][k_] == n_kwh(t_, k_), z3.Implies(n_kwh(t_, k_), z3.And(T.kwid[t_][k_] == sp.M(Lkw(t_, k_), n_kwid(t_, k_)), T.kwkey[t_][k_] == n_kwkey(t_, k_)))))), {"C19"}),
+        ("activation_references", z3.ForAll([t_], z3.Implies(z3.And(D0[t_], has_act(t_)), z3.And(T.actid[t_] == sp.M(Lact(t_), act_id(t_)), T.actkey[t_] == act_key(t_)))), {"C19", "C10"}),
+    ]
+
+
+def _g():
+    return C.ghost["T"], C.ghost["sp"]
+
+
+def _m():
+    return C.loop_states[2].nseen  # number of inputs completely rewired (loop C1 is ordered)
+
+
+class LoopInputsCheck(LoopSpec):
+    """for in_id in in_ids: an input that is an ancestor of an input is refused"""
+
+    carried = ()
+    local_ok = ("descendants",)
+
+    def inv(self, env, st):
+        anc = env["in_ids_ancestors"]
+        j = bv("j!la", I)
+        return [("no_checked_input_is_an_ancestor_of_an_input", z3.ForAll([j], z3.Implies(z3.And(j >= 0, j < st.nseen), z3.Not(anc.mem(in_at(j))))), {"C19"})]
+
+
+class LoopOutputs(LoopSpec):
+    """for o_id in out_ids: _add_missing_deps(o_id, set_xn_ids)"""
+
+    carried = ()
+
+    def modifies(self, env):
+        return [env["set_xn_ids"]]
+
+    def inv(self, env, st):
+        N, A0 = C.ghost["N"], C.ghost["A0"]
+        X = env["set_xn_ids"].a
+        j = bv("j!lo", I)
+        n_out = C.ghost["n_out"]
+        return [
+            ("inputs_and_outputs_stay_in_the_set", z3.ForAll([q_], z3.Implies(A0[q_], X[q_])), {"C19"}),
+            ("predecessors_of_processed_outputs_are_in_the_set", z3.ForAll([j, p_], z3.Implies(z3.And(j >= 0, j < st.nseen, N[p_], E(p_, out_at(j))), X[p_])), {"C19"}),
+            ("added_nodes_have_all_their_predecessors_in_the_set", z3.ForAll([q_, p_], z3.Implies(z3.And(X[q_], z3.Not(A0[q_]), N[p_], E(p_, q_)), X[p_])), {"C19"}),
+            ("added_nodes_are_needed_by_an_output", z3.ForAll([q_], z3.Implies(z3.And(X[q_], z3.Not(A0[q_])), z3.And(N[q_], z3.Exists([j], z3.And(j >= 0, j < n_out, Reach(N, q_, out_at(j))))))), {"C19"}),
+            ("no_default_less_dag_input_is_added", z3.ForAll([q_], z3.Implies(z3.And(X[q_], z3.Not(A0[q_])), z3.Not(is_dag_input(q_)))), {"C19"}),
+        ]
+
+
+class LoopC1(LoopSpec):
+    """for old_id, new_id in zip(in_ids, new_in_ids)"""
+
+    carried = ()
+    local_ok = ("xn", "i", "xn_dep", "xn_dep_name")
+
+    def modifies(self, env):
+        return [C.ghost["T"]]
+
+    def inv(self, env, st):
+        T, sp = _g()
+        m = st.nseen
+        L = lambda *a: m  # noqa: E731
+        return table_clauses(T, sp, m, L, L, L)
+
+
+class LoopC2(LoopSpec):
+    """for xn in xn_dict.values()"""
+
+    carried = ()
+    local_ok = ("i", "xn_dep", "xn_dep_name")
+
+    def modifies(self, env):
+        return [C.ghost["T"]]
+
+    def inv(self, env, st):
+        T, sp = _g()
+        m = _m()
+        S = st.seen
+        L = lambda t_, *a: z3.If(S[t_], m + 1, m)  # noqa: E731
+        return table_clauses(T, sp, m + 1, L, L, L)
+
+
+class LoopC3(LoopSpec):
+    """for i, xn_dep in enumerate(xn.args)"""
+
+    carried = ()
+
+    def modifies(self, env):
+        return [C.ghost["T"]]
+
+    def inv(self, env, st):
+        T, sp = _g()
+        m = _m()
+        S = C.loop_states[3].seen
+        cur = env["xn"]._x
+        La = lambda t_, i_: z3.If(z3.Or(S[t_], z3.And(t_ == cur, i_ < st.nseen)), m + 1, m)  # noqa: E731
+        Lo = lambda t_, *a: z3.If(S[t_], m + 1, m)  # noqa: E731
+        return table_clauses(T, sp, m + 1, La, Lo, Lo)
+
+
+class LoopC4(LoopSpec):
+    """for xn_dep_name, xn_dep in xn.kwargs.items()"""
+
+    carried = ()
+
+    def modifies(self, env):
+        return [C.ghost["T"]]
+
+    def inv(self, env, st):
+        T, sp = _g()
+        m = _m()
+        S = C.loop_states[3].seen
+        cur = env["xn"]._x
+        La = lambda t_, i_: z3.If(z3.Or(S[t_], t_ == cur), m + 1, m)  # noqa: E731
+        Lk = lambda t_, k_: z3.If(z3.Or(S[t_], z3.And(t_ == cur, st.seen[k_])), m + 1, m)  # noqa: E731
+        Lc = lambda t_: z3.If(S[t_], m + 1, m)  # noqa: E731
+        return table_clauses(T, sp, m + 1, La, Lk, Lc)
+
+
+class Compose:
+    module = "tawazi._dag.dag"
+    qualname = "BaseDAG.compose"
+    nested_stubs = ("_add_missing_deps",)
+
+    def __init__(self):
+        self.loops = {0: LoopInputsCheck(), 1: LoopOutputs(), 2: LoopC1(), 3: LoopC2(), 4: LoopC3(), 5: LoopC4()}
+
+    def cases(self):
+        return ["outputs=sequence", "outputs=single"]
+
+    def run(self, f, case):
+        from contracts.digraph import stub_ancestors_of_iter
+
+        g = SDiGraphEx(name="self.graph_ids")
+        N = g.N
+        reach_theory().register(N)
+        C.assume(lib.acyclic_axiom())
+        n_in, n_out = C.fresh("n_inputs", I), C.fresh("n_outputs", I)
+        C.assume(n_in >= 0, n_out >= 0)
+        if case == "outputs=single":
+            C.assume(n_out == 1)
+        i_, j_, k_ = bv("i!cp", I), bv("j!cp", I), bv("k!cp", Key)
+        # Inv_DAG of the original (from_exec_nodes.post): references of a node are nodes of the graph and edges into it
+        C.assume(z3.ForAll([x, i_], z3.Implies(z3.And(N[x], i_ >= 0, i_ < n_nargs(x)), z3.And(N[n_aid(x, i_)], E(n_aid(x, i_), x)))))
+        C.assume(z3.ForAll([x, k_], z3.Implies(z3.And(N[x], n_kwh(x, k_)), z3.And(N[n_kwid(x, k_)], E(n_kwid(x, k_), x)))))
+        C.assume(z3.ForAll([x], z3.Implies(z3.And(N[x], has_act(x)), z3.And(N[act_id(x)], E(act_id(x), x)))))
+        # the aliases resolve to distinct nodes of the DAG (a repeated input makes xn_dict[new_id] raise KeyError: not modelled)
+        C.assume(z3.ForAll([j_], z3.Implies(z3.And(j_ >= 0, j_ < n_in), z3.And(N[in_at(j_)], in_pos(in_at(j_)) == j_))))
+        C.assume(z3.ForAll([j_], z3.Implies(z3.And(j_ >= 0, j_ < n_out), N[out_at(j_)])))
+        # ASSUMED string-level fact: the holder ids made by make_axn_id are fresh (no node of the original has such an id)
+        # (stated for the input nodes only: an injective function into the complement of N over ALL ids has no finite model)
+        C.assume(z3.ForAll([j_], z3.Implies(z3.And(j_ >= 0, j_ < n_in), z3.And(z3.Not(N[new_of(in_at(j_))]), new_inv(new_of(in_at(j_))) == in_at(j_)))))
+        n_dag_in = C.fresh("n_dag_inputs", I)
+        C.assume(n_dag_in >= 0)
+        results0 = SMap.fresh("self.results", Id, Val)
+        C.assume(z3.ForAll([x], z3.Implies(results0.dom[x], N[x])))
+        r0 = (results0.dom, results0.val)
+        log = dict(ctor=[])
+
+        class SAlias(Sym):
+            def __init__(self, kind, j):
+                self.kind, self.j = kind, j
+
+            def _vc_isinstance(self, cls):
+                return False  # neither a str nor an ExecNode reference here: resolved through _get_single_xn_by_alias
+
+            def _vc_subst(self, a, b):
+                return SAlias(self.kind, z3.substitute(self.j, (a, b)))
+
+        class SNodeRef(Sym):
+            def __init__(self, t_):
+                self.id = SId(t_)
+
+        class SOrigTable(Sym):
+            def __getitem__(self, k):
+                return SOrigNode(term(k))
+
+        class _Self(Sym):
+            graph_ids = g
+            results = results0
+            exec_nodes = SOrigTable()
+            input_uxns = SSeq(n_dag_in, lambda q: SUxn(dag_in(q), kp_empty), list, "self.input_uxns")
+
+            def _get_single_xn_by_alias(self, a):
+                if not isinstance(a, SAlias):
+                    raise ContractBindError("an alias is expected")
+                if not C.binder and C.choose("the alias is unknown or ambiguous"):
+                    raise ValueError("alias is not unique / not found")
+                return SNodeRef(in_at(a.j) if a.kind == "in" else out_at(a.j))
+
+            def _vc_isinstance(self, cls):
+                classes = cls if isinstance(cls, tuple) else (cls,)
+                return any(getattr(c, "__name__", "") == "DAGStub" for c in classes)
+
+        me = _Self()
+        g.ancestors_of_iter = lambda nodes: stub_ancestors_of_iter(g, nodes)
+        inputs = SSeq(n_in, lambda q: SAlias("in", q), list, "inputs")
+        outputs = SAlias("out", z3.IntVal(0)) if case == "outputs=single" else SSeq(n_out, lambda q: SAlias("out", q), list, "outputs")
+        if case == "outputs=single":
+            outputs._vc_isinstance = lambda cls: str in (cls if isinstance(cls, tuple) else (cls,))  # a single alias (a str)
+
+        def deepcopy(o):
+            if isinstance(o, SOrigNode):
+                return SCopyOf(o._x)
+            raise Unsupported(f"deepcopy of {type(o).__name__}")
+
+        def strict_dict(it=None):
+            col = it._vc_iter() if hasattr(it, "_vc_iter") else None
+            if col is None:
+                raise Unsupported("StrictDict of something else than a generator of pairs")
+            qv = bv("q!sd", col.sort)
+            pair = col.elem(qv)
+            if not (isinstance(pair, tuple) and len(pair) == 2 and z3.eq(term(pair[0]), qv)):
+                raise Unsupported("StrictDict(pairs): the key is expected to be the iteration variable")
+            if isinstance(pair[1], SOrigNode):
+                C.check(z3.BoolVal(False), "compose.C15.every_node_of_the_composed_dag_is_a_deep_copy_not_shared_with_the_original", {"C15", "C19"}, "assert")
+                raise ContractBindError("a node of the original DAG is shared with the composed DAG")
+            if isinstance(pair[1], SCopyOf):
+                if not z3.eq(pair[1]._x, qv):
+                    raise ContractBindError("the copy stored under an id is not the copy of the node with that id")
+                T = SCopyTable()
+                D0 = z3.Lambda([qv], col.pred(qv))
+                sp = Sp(n_in, D0)
+                C.ghost.update(T=T, sp=sp, D0_pred=col.pred)
+                L0 = lambda *a: z3.IntVal(0)  # noqa: E731
+                for _, fml, _ in table_clauses(T, sp, z3.IntVal(0), L0, L0, L0):
+                    C.assume(fml)
+                return T
+            # (id, value) pairs: the results of the composed DAG
+            R = SMap.fresh("composed.results", Id, Val, strict=True)
+            vt = term(pair[1], Val)
+            C.assume(z3.ForAll([qv], z3.And(R.dom[qv] == col.pred(qv), z3.Implies(col.pred(qv), R.val[qv] == vt))))
+            return R
+
+        def dag_ctor(**kw):
+            log["ctor"].append(kw)
+            return "COMPOSED-DAG"
+
+        dag_ctor.__name__ = "DAGStub"
+        DAGStub = type("DAGStub", (), {"__new__": staticmethod(lambda cls, **kw: dag_ctor(**kw))})
+
+        def add_missing_factory(env):
+            di = env.get("dag_inputs_ids")
+            if di is None or not hasattr(di, "_vc_contains"):
+                raise ContractBindError("_add_missing_deps uses dag_inputs_ids")
+            t_ = bv("t!di", Id)
+            C.assume(z3.ForAll([t_], is_dag_input(t_) == sym.tb(di._vc_contains(SId(t_)))))
+
+            def stub(cand, xs):
+                return add_missing_deps_stub(N, term(cand), xs, "compose._add_missing_deps")
+
+            return stub
+
+        class _W:
+            @staticmethod
+            def warn(*a, **k):
+                pass
+
+        C.ghost.update(N=N, n_out=n_out, nested_stubs={"_add_missing_deps": add_missing_factory})
+        f.__globals__.update({"deepcopy": deepcopy, "StrictDict": strict_dict, "make_axn_id": lambda qn, old: SId(new_of(term(old))), "ArgExecNode": lambda i: SArgHolder(term(i)),
+                              "UsageExecNode": SUxnCtor, "nx": lib.NxModule(), "warnings": _W, "object": SObjectShim, "DAG": DAGStub, "AsyncDAG": DAGStub})
+        # A0 is fixed when set_xn_ids is created: captured lazily by the first invariant evaluation of the outputs loop
+        orig_inv = LoopOutputs.inv
+
+        n = "compose"
+        try:
+            # the set of inputs and outputs: snapshot for the outputs loop
+            C.ghost["A0"] = z3.Lambda([q_], z3.Or(z3.Exists([j_], z3.And(j_ >= 0, j_ < n_in, in_at(j_) == q_)), z3.Exists([j_], z3.And(j_ >= 0, j_ < n_out, out_at(j_) == q_))))
+            r = f(me, "QUALNAME", inputs, outputs, None, kwargs={})
+        except MissingInput:
+            return "raises ValueError (an output needs a DAG input that is not declared as input)"
+        except ValueError:
+            return "raises ValueError (unknown / ambiguous alias, or an input that another input depends on)"
+        except KeyError:
+            return "raises KeyError (holder id already used)"
+        if len(log["ctor"]) != 1 or r != "COMPOSED-DAG":
+            raise ContractBindError("compose: expected exactly one DAG construction, returned")
+        kw = log["ctor"][0]
+        T, sp = _g()
+        p = f"{n}.post"
+        C.check(z3.BoolVal(kw.get("exec_nodes") is T and kw.get("qualname") == "QUALNAME"), f"{p}.C19.the_composed_dag_is_built_from_the_table_of_copies", {"C19"}, "post")
+        Lall = lambda *a: n_in  # noqa: E731
+        for nm, fml, serves in table_clauses(T, sp, n_in, Lall, Lall, Lall):
+            C.check(fml, f"{p}.C19.table.{nm}", serves, "post")
+        D0 = sp.D0
+        t_ = bv("t!po", Id)
+        isin = lambda t2: sp.is_in(t2, n_in)  # noqa: E731
+        C.check(z3.ForAll([t_, i_], z3.Implies(z3.And(D0[t_], i_ >= 0, i_ < n_nargs(t_)), z3.And(z3.Not(isin(T.aid[t_][i_])), T.dom[T.aid[t_][i_]]))), f"{p}.C19.no_positional_reference_to_an_input_survives_and_every_reference_is_a_key", {"C19", "C14"}, "post")
+        C.check(z3.ForAll([t_, k_], z3.Implies(z3.And(D0[t_], n_kwh(t_, k_)), z3.And(z3.Not(isin(T.kwid[t_][k_])), T.dom[T.kwid[t_][k_]]))), f"{p}.C19.no_keyword_reference_to_an_input_survives_and_every_reference_is_a_key", {"C19", "C14"}, "post")
+        C.check(z3.ForAll([t_], z3.Implies(z3.And(D0[t_], has_act(t_)), z3.And(z3.Not(isin(T.actid[t_])), T.dom[T.actid[t_]]))), f"{p}.C19.no_activation_reference_to_an_input_survives_and_every_reference_is_a_key", {"C19", "C10", "C14"}, "post")
+        C.check(z3.ForAll([t_], z3.Implies(D0[t_], z3.And(N[t_], z3.Not(isin(t_)), z3.Or(z3.Exists([j_], z3.And(j_ >= 0, j_ < n_out, Reach(N, t_, out_at(j_)))))))), f"{p}.C19.only_nodes_that_an_output_needs_are_copied_and_no_input_is", {"C19"}, "post")
+        C.check(z3.ForAll([j_], z3.Implies(z3.And(j_ >= 0, j_ < n_out, z3.Not(isin(out_at(j_)))), D0[out_at(j_)])), f"{p}.C19.every_output_that_is_not_an_input_is_copied", {"C19"}, "post")
+        # inputs / outputs / results of the composed DAG
+        iu = kw.get("input_uxns")
+        ok_iu = isinstance(iu, SSeq)
+        C.check(z3.BoolVal(ok_iu), f"{p}.C19.inputs_are_a_list_of_references", {"C19"}, "post")
+        if ok_iu:
+            ei, ek = uxn_terms(iu.at(j_))
+            C.check(z3.And(iu.n == n_in, z3.ForAll([j_], z3.Implies(z3.And(j_ >= 0, j_ < n_in), z3.And(ei == new_of(in_at(j_)), ek == kp_empty)))), f"{p}.C19.input_j_of_the_composed_dag_is_the_holder_of_input_node_j", {"C19"}, "post")
+        ru = kw.get("return_uxns")
+        if case == "outputs=single":
+            ri, rk = uxn_terms(ru)
+            C.check(z3.And(ri == out_at(z3.IntVal(0)), rk == kp_empty), f"{p}.C19.a_single_output_is_returned_as_a_single_value", {"C19"}, "post")
+        else:
+            ok_ru = isinstance(ru, SSeq) and ru.kind is tuple
+            C.check(z3.BoolVal(ok_ru), f"{p}.C19.outputs_are_returned_as_a_tuple", {"C19"}, "post")
+            if ok_ru:
+                ei, ek = uxn_terms(ru.at(j_))
+                C.check(z3.And(ru.n == n_out, z3.ForAll([j_], z3.Implies(z3.And(j_ >= 0, j_ < n_out), z3.And(ei == out_at(j_), ek == kp_empty)))), f"{p}.C19.returned_value_j_is_output_node_j", {"C19"}, "post")
+        R = kw.get("results")
+        ok_r = isinstance(R, SMap)
+        C.check(z3.BoolVal(ok_r), f"{p}.C19.results_are_a_results_map", {"C19"}, "post")
+        if ok_r:
+            C.check(z3.ForAll([t_], z3.And(R.dom[t_] == z3.And(r0[0][t_], T.dom[t_]), z3.Implies(R.dom[t_], R.val[t_] == r0[1][t_]))), f"{p}.C19.constants_defaults_and_setup_results_of_the_copied_nodes_are_taken_from_the_original", {"C19", "C11"}, "post")
+        C.check(z3.And(results0.dom == r0[0], results0.val == r0[1]), f"{p}.C15.the_original_dag_is_untouched", {"C15", "C19"}, "post")
+        return "return"
